@@ -235,7 +235,19 @@ func (r *mxRunner) doMayBlock(path string, _ time.Duration) *httptest.ResponseRe
 	ch := make(chan *httptest.ResponseRecorder, 1)
 	idCh := make(chan uint64, 1)
 	go func() {
-		defer func() { recover() }() //nolint:errcheck
+		defer func() {
+			// a handler that panics (net/http would answer by closing the connection) is observed as status 599
+			if e := recover(); e != nil {
+				if os.Getenv("VERIF_DEBUG") != "" {
+					buf := make([]byte, 1<<14)
+					n := runtime.Stack(buf, false)
+					fmt.Fprintf(os.Stderr, "DEBUG doMayBlock handler panic: %v\n%s\n", e, buf[:n])
+				}
+				w := httptest.NewRecorder()
+				w.Code = 599
+				ch <- w
+			}
+		}()
 		idCh <- curGoroutineID()
 		ch <- r.do(path)
 	}()
@@ -251,6 +263,11 @@ func (r *mxRunner) doMayBlock(path string, _ time.Duration) *httptest.ResponseRe
 			}
 			// an earlier, still blocked request re-parking after a Broadcast: ignore
 		case <-deadline:
+			if os.Getenv("VERIF_DEBUG") != "" {
+				buf := make([]byte, 1<<16)
+				n := runtime.Stack(buf, true)
+				fmt.Fprintf(os.Stderr, "DEBUG doMayBlock deadline path=%s id=%d\n%s\n", path, id, buf[:n])
+			}
 			return nil
 		}
 	}
